@@ -23,7 +23,7 @@ STUBS = [
     "datetime.timedelta(seconds=n) on a symbolic int: OverflowError beyond +-999999999 days, else an opaque value; datetime.timezone(offset): ValueError unless strictly inside +-24h; datetime.datetime(y,m,d,hh,mm,ss,tzinfo) on symbolic ints: OverflowError outside the C int range, ValueError outside the documented field ranges (month lengths incl. leap years), else an opaque value. email.utils.parsedate_to_datetime / email._parseaddr._parsedate_tz are NOT stubbed: interpreted from the stdlib source",
 ]
 ASSUMPTIONS = ["server-controlled environ keys are well-formed and concrete"]
-OUTSIDE = ["non-ASCII host names (IDNA codec)", "form/files/data (multipart structure covered by C01/C10)", "the datetime value returned by parse_date (only 'None or not' is compared)", "Request.url beyond get_current_url on (scheme http, solver host, fixed path/query)", "texts longer than the bound"]
+OUTSIDE = ["non-ASCII host names (IDNA codec)", "Request.data / get_json (C json module)", "the datetime value returned by parse_date (only 'None or not' is compared)", "Request.url beyond get_current_url on (scheme http, solver host, fixed path/query)", "texts longer than the bound"]
 
 
 def _targets():
@@ -76,6 +76,9 @@ def _targets():
         # email.utils.parsedate_to_datetime / _parsedate_tz are interpreted from the stdlib
         # source; the datetime constructors are contract stubs (see make_stubs)
         "parse_date": lambda I, v: I.call(http.parse_date, (v,)) is None,
+        # form data: the body is the latin-1 image of the solver text (arbitrary bytes)
+        "form[multipart]": lambda I, v: _form(I, v, "multipart/form-data", {"boundary": "b"}),
+        "form[urlencoded]": lambda I, v: _form(I, v, "application/x-www-form-urlencoded", {}),
     }
     return T
 
@@ -97,6 +100,19 @@ def _auth(a):
     if a is None:
         return None
     return (a.type, a.token, a.parameters is None)
+
+
+def _form(I, v, mimetype, options):
+    """FormDataParser.parse as Request.form / Request.files drive it (silent mode)"""
+    from harness.c01 import Stream
+    from werkzeug.formparser import FormDataParser
+
+    body = v.encode("latin-1")
+    p = I.call(FormDataParser, (), {})
+    stream, form, files = I.call(p.parse, (Stream(body), mimetype, None, dict(options)))
+    n_form = len(_items(I, form))
+    n_files = len(list(I.call(files.keys, ())))
+    return n_form >= 0 and n_files >= 0
 
 
 def _args(I, v):
@@ -225,7 +241,7 @@ def obligations(tier, seed):
     out = []
     quick = tier == "quick"
     T = _targets()
-    heavy = {"get_current_url[host]": 2, "Request.args": 3, "parse_cookie[environ]": 3, "parse_accept_header[CharsetAccept]": 3,
+    heavy = {"form[multipart]": 2, "form[urlencoded]": 2, "get_current_url[host]": 2, "Request.args": 3, "parse_cookie[environ]": 3, "parse_accept_header[CharsetAccept]": 3,
              "parse_accept_header[LanguageAccept]": 3, "parse_accept_header[MIMEAccept]": 3}
     for name in T:
         top = 4 if quick else 6
@@ -250,6 +266,11 @@ def obligations(tier, seed):
         "get_host": ["{}:80", "[{}]"], "host_is_trusted": ["{}.example.org", "{}:80"],
         "Request.args": ["a={}&b=1"],
         "get_current_url[host]": ["xn--{}", "a.xn--{}", "{}.b"],
+        "form[multipart]": ["--b\r\n{}", "--b\r\nContent-Disposition: form-data; name=\"a\"{}\r\n\r\nx\r\n--b--\r\n",
+                            "--b\r\nContent-Disposition: {}\r\n\r\nx\r\n--b--\r\n", "--b\r\nContent-Disposition: form-data; name=a\r\n{}: v\r\n\r\nx\r\n--b--\r\n",
+                            "--b\r\nContent-Disposition: form-data; name=a; filename=f\r\nContent-Type: {}\r\n\r\nx\r\n--b--\r\n",
+                            "--b\r\nContent-Disposition: form-data; name=a\r\n\r\n{}\r\n--b--\r\n"],
+        "form[urlencoded]": ["a={}&b=1", "{}=1"],
         "parse_date": ["1 Jan {} 00:00 GMT", "{} Jan 2024 00:00 GMT", "1 {} 2024 00:00", "1 Jan 2024 {} GMT", "1 Jan 2024 00:00 {}",
                        "Mon, {} 2024 00:00:00 GMT", "Sunday, 06-Nov-{} 08:49:37 GMT", "29 Feb {}00 0:0",
                        "1 Jan 99999999{} 0:0", "1 Jan 2024 99999999{}:0", "1 Jan 2024 0:0 +99999999999{}"],
@@ -264,5 +285,6 @@ def obligations(tier, seed):
             for n in range(1, top + 1):
                 out.append({"name": f"robust-skel[{name},{skel},n={n}]", "body": "body_parser",
                             "params": {"target": name, "n": n, "skel": skel},
-                            "opts": {"budget_s": 300 if quick else 1800, "ctx": {"max_cp": 0xFF}}})
+                            # (form bodies: the solver bytes may decode to code points up to U+07FF)
+                            "opts": {"budget_s": 300 if quick else 1800, "ctx": {"max_cp": 0x7FF if name.startswith("form[") else 0xFF}}})
     return out
